@@ -116,6 +116,8 @@ func TestProp(t *testing.T) {
 	r.Note("PACs with a duplicated signature buffer are judged for soundness only (accept => reference accepts)")
 	r.Note("keytabs with several key versions: the service's key is the one the ticket was issued under; a PAC signed with any other key of the keytab (other version, other principal) must fail (c19_history_test.go)")
 	r.Note("one PACType value used for several PACs / keys in turn: a call that succeeds must be on bytes the reference verifies under the key of that call; a used value that refuses a valid PAC is only counted")
+	r.Note("UserFlags patched in place to every combination of the 'ExtraSids populated' / 'ResourceGroupIds populated' bits (and other bits) with the arrays left as they are: the SIDs exposed must be those the arrays encode; a refusal is judged only when the flag word agrees with the arrays (c19_flags_test.go)")
+	r.Note("tickets with 1-3 AD-IF-RELEVANT containers, the PAC alone or followed by 1-2 other elements in its container: found, verified and reported as when it is alone; a PAC standing behind another element of its container is only counted (c19_container_test.go)")
 	r.Note("identity as the application gets it (UserName, DisplayName, AuthzAttributes, ADCredentials) from VerifyAPREQ, after Credentials.Marshal/Unmarshal and from the SPNEGO handler's session store, with names patched in place (c19_identity_test.go)")
 
 	// 0. the unmodified AD-issued sample under its real key, and the known attributes
@@ -145,6 +147,8 @@ func TestProp(t *testing.T) {
 	keyVersionCases(r, bufs)
 	reuseCases(r, bufs)
 	identityCases(r, bufs)
+	userFlagCases(r, bufs)
+	containerCases(r, bufs)
 
 	type variant struct {
 		name string
